@@ -35,6 +35,10 @@ def _tanh(b, x):
     return b.node("Tanh", [x], lambda p: np.tanh(p.astype(np.float64)).astype(np.float32))
 
 
+def _sigmoid(b, x):
+    return b.node("Sigmoid", [x], lambda p: (1.0 / (1.0 + np.exp(-p.astype(np.float64)))).astype(np.float32))
+
+
 def _matmul(b, x, y):
     return b.node("MatMul", [x, y], lambda p, q: (p.astype(np.float64) @ q.astype(np.float64)).astype(np.float32))
 
@@ -193,7 +197,9 @@ def gen_case(seed, idx):
         # loop body's execution; rten reports an error for it. Not generated.
         spec["scan"] = False
     reuse_after = rng.bool()          # captured value used again after the control-flow op (by-ref vs by-value capture)
-    cap_kinds = (rng.choose(["input", "node", "const"]), rng.choose(["input", "node", "const"]))
+    # "fused_mid": the captured value is an intermediate of a pattern the optimiser
+    # fuses in the parent graph (x * sigmoid(x) -> Silu captures sigmoid(x)).
+    cap_kinds = (rng.choose(["input", "node", "const", "fused_mid"]), rng.choose(["input", "node", "const", "fused_mid"]))
     sym = rng.bool()
     models = []
     for inline in (False, True):
@@ -206,11 +212,17 @@ def gen_case(seed, idx):
         xin = g.add_input("f32", r2.array("f32", shape), decl, name="x_in")
         x = _relu(g, xin) if r2.bool() else xin
         caps = []
+        fused_outs = []
         for ci, ck in enumerate(cap_kinds):
             if ck == "input":
                 caps.append(g.add_input("f32", r2.array("f32", shape), decl, name=f"cap_in{ci}"))
             elif ck == "const":
                 caps.append(g.add_init("f32", r2.array("f32", shape), name=f"cap_c{ci}"))
+            elif ck == "fused_mid":
+                src = g.add_input("f32", r2.array("f32", shape), decl, name=f"cap_src{ci}")
+                mid = _sigmoid(g, src)
+                caps.append(mid)
+                fused_outs.append(_mul(g, src, mid))
             else:
                 src = g.add_input("f32", r2.array("f32", shape), decl, name=f"cap_src{ci}")
                 caps.append(_tanh(g, src))
@@ -238,6 +250,7 @@ def gen_case(seed, idx):
                 outs.append(build_if(g, r2, spec, fin, tuple(caps), inline, depth=0))
         except Invalid:
             return None
+        outs.extend(fused_outs)
         if reuse_after:
             outs.append(_neg(g, caps[0]))
             if caps[1].kind == "node":
